@@ -355,7 +355,120 @@ def gen_c14():
     return "\n".join(out) + "\n"
 
 
-GENERATORS = {"C14Tables.lean": gen_c14}
+# ---------------------------------------------------------------------------------- round 6: Gen/C14Order.lean
+ORDER_KEYS = ["id", "pitch", "note_on", "note_off", "sound_off", "velocity", "track", "channel"]
+
+
+def gen_c14_order():
+    """the comparison protocol of PerformedNote (`<`, `==`, `hash`, `str`) and the constants of seconds_to_midi_ticks,
+    obtained by CALLING the live code on probes (two notes that differ in exactly one key)"""
+    notes = _Notes()
+    out = []
+    w = out.append
+    w("/- GENERATED by harness/translate_c14.py (gen_c14_order) from the live partitura source (performance.py,")
+    w("   utils/music.py) by calling the live functions on probes.  Do not edit. -/")
+    w("namespace Gen.C14Order\n")
+
+    def pair(key):
+        import partitura.performance as P
+
+        base = dict(id="a", pitch=60, note_on=1.0, note_off=2.0, sound_off=4.0, velocity=64, track=1, channel=1)
+        hi = dict(base)
+        hi[key] = {"id": "b", "pitch": 61, "note_on": 1.5, "note_off": 3.0, "sound_off": 5.0, "velocity": 65, "track": 2,
+                   "channel": 2}[key]
+        return P.PerformedNote(dict(base)), P.PerformedNote(hi)
+
+    def order_keys():
+        ks = []
+        for k in ORDER_KEYS:
+            a, b = pair(k)
+            lt, gt = bool(a < b), bool(b > a)
+            if lt != gt or bool(b < a) or bool(a >= b) == lt or bool(b <= a) == lt:
+                raise ValueError("the four comparisons disagree on key %s" % k)
+            if lt:
+                ks.append(k)
+        a, _ = pair("id")
+        if bool(a < a) or not bool(a <= a) or bool(a > a) or not bool(a >= a):
+            raise ValueError("`<` is not strict / `<=` not reflexive")
+        return ks
+
+    def hash_keys():
+        ks = []
+        for k in ORDER_KEYS:
+            a, b = pair(k)
+            if hash(a) != hash(b):
+                ks.append(k)
+        return ks
+
+    def eq_blind():
+        ks = []
+        for k in ORDER_KEYS:
+            a, b = pair(k)
+            if bool(a == b):
+                ks.append(k)
+        a, _ = pair("id")
+        c, _ = pair("id")
+        if not bool(a == c) or bool(a == dict(a.pnote_dict)):
+            raise ValueError("`==` of equal notes is false / of a note and a dict is true")
+        return ks
+
+    def str_head():
+        a, _ = pair("id")
+        s = str(a)
+        if not s.endswith("a"):
+            raise ValueError("str(note) does not end with the id")
+        return s[:-1]
+
+    def tick_scale():
+        from partitura.utils.music import seconds_to_midi_ticks
+
+        return int(seconds_to_midi_ticks(1, mpq=1, ppq=1))
+
+    def tick_half_even():
+        from partitura.utils.music import seconds_to_midi_ticks
+
+        # with mpq = 2e6, ppq = 1 one second is half a tick
+        got = [int(seconds_to_midi_ticks(t, mpq=2000000, ppq=1)) for t in (1, 3, 5, 7, -1, -3)]
+        if got != [0, 2, 2, 4, 0, -2]:
+            raise ValueError("ties are not rounded to even: %s" % got)
+        return True
+
+    def tick_defaults():
+        from partitura.utils.music import seconds_to_midi_ticks, midi_ticks_to_seconds
+
+        a = (_default(seconds_to_midi_ticks, "mpq"), _default(seconds_to_midi_ticks, "ppq"))
+        b = (_default(midi_ticks_to_seconds, "mpq"), _default(midi_ticks_to_seconds, "ppq"))
+        if a != b:
+            raise ValueError("the two conversions have different defaults")
+        return a
+
+    oks = notes.attempt("orderKeys", order_keys, ["note_on"])
+    hks = notes.attempt("hashKeys", hash_keys, ["id"])
+    ebl = notes.attempt("eqBlindKeys", eq_blind, [])
+    head = notes.attempt("strHead", str_head, "PerformedNote: ")
+    scale = notes.attempt("tickScale", tick_scale, 1000000)
+    he = notes.attempt("tickHalfEven", tick_half_even, True)
+    tmpq, tppq = notes.attempt("tickDefaults", tick_defaults, (500000, 480))
+    w("/-- the keys out of %s in which two notes must differ for `a < b` to hold (all else equal) -/" % ", ".join(ORDER_KEYS))
+    w("def orderKeys : List String := %s" % _llist(_lstr(k) for k in oks))
+    w("/-- the keys a difference in which changes `hash(note)` -/")
+    w("def hashKeys : List String := %s" % _llist(_lstr(k) for k in hks))
+    w("/-- the keys a difference in which `a == b` does not see -/")
+    w("def eqBlindKeys : List String := %s" % _llist(_lstr(k) for k in ebl))
+    w("/-- `str(note)` without the id -/")
+    w("def strHead : String := %s\n" % _lstr(head))
+    w("/-- `seconds_to_midi_ticks`: ticks of one second at mpq = ppq = 1; ties go to the even tick; keyword defaults -/")
+    w("def tickScale : Nat := %d" % scale)
+    w("def tickHalfEven : Bool := %s" % _lbool(he))
+    w("def tickDefaultMpq : Nat := %d" % tmpq)
+    w("def tickDefaultPpq : Nat := %d\n" % tppq)
+    w("def extractionOk : Bool := %s" % _lbool(not notes))
+    w("def extractionNotes : List String := %s\n" % _llist(_lstr(n) for n in notes))
+    w("end Gen.C14Order")
+    return "\n".join(out) + "\n"
+
+
+GENERATORS = {"C14Tables.lean": gen_c14, "C14Order.lean": gen_c14_order}
 
 if __name__ == "__main__":
     print(gen_c14())
